@@ -38,23 +38,32 @@ def PyErr.isValue : PyErr → Bool | .value _ => true | _ => false
 def isLeap (y : Nat) : Bool := decide (y % 4 = 0 ∧ (y % 100 ≠ 0 ∨ y % 400 = 0))
 
 /-- `calendar.monthrange(y, m)[1]` / `_days_in_month` -/
-def dim (y m : Nat) : Nat :=
-  if m = 2 then (if isLeap y then 29 else 28)
+def dimL (leap : Bool) (m : Nat) : Nat :=
+  if m = 2 then (if leap then 29 else 28)
   else if m = 4 ∨ m = 6 ∨ m = 9 ∨ m = 11 then 30 else 31
+def dim (y m : Nat) : Nat := dimL (isLeap y) m
 
 /-- `_days_before_year` -/
 def dby (y : Nat) : Nat := (y - 1) * 365 + (y - 1) / 4 - (y - 1) / 100 + (y - 1) / 400
 
 /-- `_days_before_month` -/
-def dbm (y m : Nat) : Nat :=
+def dbmL (leap : Bool) (m : Nat) : Nat :=
   (match m with
     | 1 => 0 | 2 => 31 | 3 => 59 | 4 => 90 | 5 => 120 | 6 => 151 | 7 => 181
     | 8 => 212 | 9 => 243 | 10 => 273 | 11 => 304 | _ => 334)
-  + (if m > 2 ∧ isLeap y = true then 1 else 0)
+  + (if m > 2 ∧ leap = true then 1 else 0)
+def dbm (y m : Nat) : Nat := dbmL (isLeap y) m
 
 /-- `_ymd2ord` -/
 def toOrd (y m d : Nat) : Nat := dby y + dbm y m + d
 def maxOrd : Nat := 3652059     -- date.max.toordinal()
+
+/-- month and day from the 0-based day-of-year index (tail of `_ord2ymd`) -/
+def mdOfIdx (leap : Bool) (n : Nat) : Nat × Nat :=
+  let month := (n + 50) / 32
+  let preceding := dbmL leap month
+  if preceding > n then (month - 1, n - dbmL leap (month - 1) + 1)
+  else (month, n - preceding + 1)
 
 /-- `_ord2ymd` -/
 def ofOrd (n0 : Nat) : Nat × Nat × Nat :=
@@ -65,10 +74,8 @@ def ofOrd (n0 : Nat) : Nat × Nat × Nat :=
   let n1 := n / 365; let n := n % 365
   let year := n400 * 400 + 1 + n100 * 100 + n4 * 4 + n1
   if n1 = 4 ∨ n100 = 4 then (year - 1, 12, 31) else
-  let month := (n + 50) / 32
-  let preceding := dbm year month
-  if preceding > n then (year, month - 1, n - dbm year (month - 1) + 1)
-  else (year, month, n - preceding + 1)
+  let md := mdOfIdx (isLeap year) n
+  (year, md.1, md.2)
 
 structure DT where
   y : Nat
@@ -111,21 +118,25 @@ def DT.addDays (t : DT) (k : Int) : Except PyErr DT :=
     .ok { t with y := r.1, mo := r.2.1, d := r.2.2 }
 
 def dayUs : Nat := 86400000000
+/-- time of day in microseconds -/
+def DT.tod (t : DT) : Nat := ((t.h * 60 + t.mi) * 60 + t.s) * 1000000 + t.us
 /-- microseconds since the (fictitious) ordinal 0 midnight -/
-def DT.micros (t : DT) : Int :=
-  (t.ord : Int) * dayUs + ((((t.h : Int) * 60 + t.mi) * 60 + t.s) * 1000000 + t.us)
+def DT.microsN (t : DT) : Nat := t.ord * dayUs + t.tod
+def DT.micros (t : DT) : Int := (t.microsN : Int)
 
 def DT.lt (a b : DT) : Bool := decide (a.micros < b.micros)
 def DT.le (a b : DT) : Bool := decide (a.micros ≤ b.micros)
 
-/-- inverse of `micros` on the representable range; `OverflowError` outside -/
-def ofMicros (total : Int) : Except PyErr DT :=
-  let o := total / (dayUs : Int)
-  let r := (total % (dayUs : Int)).toNat
-  if o < 1 ∨ o > (maxOrd : Int) then .error .overflow else
-  let ymd := ofOrd o.toNat
+/-- inverse of `microsN` on the representable range; `OverflowError` outside -/
+def ofMicrosN (n : Nat) : Except PyErr DT :=
+  let o := n / dayUs
+  let r := n % dayUs
+  if o < 1 ∨ o > maxOrd then .error .overflow else
+  let ymd := ofOrd o
   .ok { y := ymd.1, mo := ymd.2.1, d := ymd.2.2,
         h := r / 3600000000, mi := r / 60000000 % 60, s := r / 1000000 % 60, us := r % 1000000 }
+def ofMicros (total : Int) : Except PyErr DT :=
+  if total < 0 then .error .overflow else ofMicrosN total.toNat
 
 /-- `dt + timedelta(microseconds=k)` -/
 def DT.addMicros (t : DT) (k : Int) : Except PyErr DT := ofMicros (t.micros + k)
